@@ -99,6 +99,7 @@ RMembership ==
        \/ JoinReleaseEn(s, j) /\ s' = JoinReleaseF(s, j, FALSE)
   \/ \E l \in Leavers :
        \/ LeaveStartEn(s, l) /\ s' = LeaveStartF(s, l)
+       \/ LeaveReadEn(s, l) /\ s' = LeaveReadF(s, l)
        \/ LeaveFirstEn(s, l) /\ s' = LeaveFirstF(s, l)
        \/ LeaveSecondEn(s, l) /\ s' = LeaveSecondF(s, l)
        \/ LeaveTransferEn(s, l) /\ s' = LeaveTransferF(s, l)
